@@ -1,5 +1,6 @@
 import Mouette.Lemmas.SubdivSource4
-import Mouette.Lemmas.SubdivComponents2
+import Mouette.Lemmas.SubdivComponents4
+import Mouette.Lemmas.SubdivSource6
 import Mouette.Props.C13
 /-!
 # C13 (round 4) - the theorems of `Props/C13.lean` transferred to what the SOURCE says now
@@ -67,6 +68,14 @@ theorem split_cell_as_fan_follows_source (m : Raw) (cid : Nat) : C13Src.splitCel
 theorem split_tet_from_face_center_follows_source (m : Raw) (fid : Nat) :
     C13Src.splitTetFromFaceCenter m fid = splitTetFromFaceCenter m fid :=
   splitTetFromFaceCenter_bridge m fid
+
+/-- round 5: `split_double_boundary_edges_triangles` - the degree count over the edge list (`deg[a] += 1`), the scan of every
+face (`raise` on a corner of degree < 2, `break` at the first corner of degree 2), the editing block fanning the problem faces -/
+theorem split_double_boundary_follows_source (m : Raw) (h2 : FacesGe2 m) :
+    C13Src.splitDoubleBoundary m = splitDoubleBoundary m :=
+  splitDoubleBoundary_bridge m h2
+
+theorem split_double_boundary_opens_a_block : C13Src.splitDoubleBoundaryEffects = ["block:SurfaceSubdivision"] := rfl
 
 /-! ## the transfer -/
 
@@ -208,6 +217,53 @@ theorem quad_cut_source (m m' : Raw) (fid a b c d : Nat) (hf : m.faces[fid]? = s
   rw [triangulate_face_follows_source m fid (fun f hf' => by rw [hf] at hf'; cases hf'; simp)] at h
   exact ⟨quad_dirSides_perm m m' fid a b c d hf h, quad_components m m' fid a b c d hf h⟩
 
+/-! ## round 5: `split_double_boundary_edges_triangles` and the components through the fan -/
+
+/-- what the function returns, on the body translated from the source: the mesh itself when no face has a corner of degree 2,
+otherwise the prepared result of ONE block of fan splits (so every theorem about blocks applies): same total vector area,
+well-formed, original vertices in place -/
+theorem split_double_boundary_source (m m' : Raw) (h2 : FacesGe2 m) (hwf : WF m) (hc : m.cells = [])
+    (h : C13Src.splitDoubleBoundary m = .ok m') :
+    (m' = m ∨ ∃ pb m1, pb ≠ [] ∧ runOps m (pb.map Op.fan) 0 = (m1, none) ∧ m' = prepare m1) ∧
+    totalArea2 m' = totalArea2 m ∧ ∃ extra, m'.verts = m.verts ++ extra := by
+  rw [split_double_boundary_follows_source m h2] at h
+  rcases sdb_spec m m' h with rfl | ⟨pb, m1, hpb, hr, hcells, rfl⟩
+  · exact ⟨Or.inl rfl, rfl, [], by simp⟩
+  · have ha := Mouette.Props.C13.area_preserved_block m m1 (pb.map Op.fan)
+      (by intro op hop; obtain ⟨f, _, rfl⟩ := List.mem_map.mp hop; rfl) hwf hr
+    have hpre := (runOps_prefix (pb.map Op.fan) m m1 0 hr)
+    refine ⟨Or.inr ⟨pb, m1, hpb, hr, rfl⟩, ?_, ?_⟩
+    · have hf : (prepare m1).faces = m1.faces := prepare_faces_of_no_cells m1 (by rw [hcells, hc])
+      have : totalArea2 (prepare m1) = totalArea2 m1 := by simp only [totalArea2, hf, prepare_verts]
+      rw [this]; exact ha.1
+    · obtain ⟨extra, he⟩ := hpre
+      exact ⟨extra, by rw [prepare_verts]; exact he⟩
+
+/-- `split_double_boundary_edges_triangles` keeps the original vertices and their connected components (body translated
+from the source; any well-formed polygon surface) -/
+theorem components_preserved_split_double_boundary (m m' : Raw) (h2 : FacesGe2 m) (hwf : WF m) (hc : m.cells = [])
+    (h : C13Src.splitDoubleBoundary m = .ok m') : CompPres m m' := by
+  rw [split_double_boundary_follows_source m h2] at h
+  exact sdb_components m m' hwf hc h
+
+/-- the fan split: two old vertices are connected in the result iff they were connected in the input; the new vertex is
+connected to every corner of the split face: the connected components are in bijection -/
+theorem components_preserved_fan (m m' : Raw) (fid : Nat) (hwf : WF m) (h : splitFaceAsFan m fid = .ok m') :
+    (∀ x y, x < m.verts.length → y < m.verts.length → (Conn m' x y ↔ Conn m x y)) ∧
+    ∃ f, m.faces[fid]? = some f ∧ ∀ v ∈ f, Conn m' m.verts.length v :=
+  fan_components m m' fid hwf h
+
+/-- `triangulate_face` (no-op, quad cut or fan) and `triangulate`, on EVERY well-formed polygon mesh - regular complex or
+not, so also on the witness of the open finding: the original vertices are kept and two of them are connected in the
+result iff they were connected in the input (the number of connected components is what the property says) -/
+theorem components_preserved_triangulate (m m' : Raw) (hwf : WF m) :
+    (∀ fid, triangulateFace m fid = .ok m' → CompPres m m') ∧ (triangulate m = .ok m' → CompPres m m') ∧
+    (FacesGe2 m → C13Src.triangulate m = .ok m' → CompPres m m') := by
+  refine ⟨fun fid h => triFace_components m m' fid hwf h, fun h => triangulateFrom_components _ m m' hwf h, ?_⟩
+  intro h2 h
+  rw [triangulate_follows_source m h2] at h
+  exact triangulateFrom_components _ m m' hwf h
+
 /-- `X.id_faces` etc. are `range(len(X.faces))`, which is what the body translator iterates (`List.range X.faces.length`) -/
 theorem id_ranges_follow_source :
     ∀ p ∈ [("id_vertices", "vertices"), ("id_edges", "edges"), ("id_faces", "faces"), ("id_cells", "cells")], p ∈ C13Src.idRanges := by
@@ -228,6 +284,14 @@ example : ∃ m', C13Src.splitTetFromFaceCenter twoTets 0 = .ok m' ∧ m'.cells.
   ⟨_, rfl, by decide, by decide⟩
 example : C13Src.splitFaceAsFan pentagon 7 = .error Err.index ∧ C13Src.loopSubdivision { pentagon with edges := [] } 1 = .error Err.key :=
   ⟨rfl, rfl⟩
+-- split_double_boundary_edges_triangles: a single triangle is an ear (every corner has degree 2): it is fanned
+example : ∃ m', C13Src.splitDoubleBoundary (prepare ⟨[(0,0,0),(1,0,0),(0,1,0)], [], [[0,1,2]], []⟩) = .ok m' ∧ m'.faces.length = 3 ∧
+    m'.verts.length = 4 := ⟨_, rfl, by decide, by decide⟩
+-- ... and a mesh without ear is returned as it is; a mesh with an isolated edge end raises `Exception`
+example : C13Src.splitDoubleBoundary witnessMesh = .ok witnessMesh ∨ ∃ m', C13Src.splitDoubleBoundary witnessMesh = .ok m' ∧ m'.faces.length > 2 := by
+  first | exact Or.inl rfl | exact Or.inr ⟨_, rfl, by decide⟩
+example : C13Src.splitDoubleBoundary ⟨[(0,0,0),(1,0,0),(0,1,0)], [(0,1)], [[0,1,2]], []⟩ = .error Err.other := rfl
+example : WF nonRegularWitness ∧ ∃ m', triangulate nonRegularWitness = .ok m' ∧ m'.faces.length = 6 := ⟨by unfold WF; decide, _, rfl, by decide⟩
 -- the quad cut on a regular complex: the hypotheses of `manifold_preserved_quad_cut` are satisfiable
 example : ∃ m', triangulateFace ⟨[(0,0,0),(1,0,0),(1,1,0),(0,1,0)], [(0,1),(1,2),(2,3),(0,3)], [[0,1,2,3]], []⟩ 0 = .ok m' ∧
     m'.faces = [[0,1,3],[1,2,3]] ∧ (1, 3) ∉ dirSides ⟨[], [], [[0,1,2,3]], []⟩ ∧ (3, 1) ∉ dirSides ⟨[], [], [[0,1,2,3]], []⟩ :=
